@@ -2087,4 +2087,58 @@ Proof.
       * split; [exact Hnew | intros _; cbn [s_cache]; exact C2].
 Qed.
 
+
+(* ---- a generated cell keeps the importance and the universe of the cell it fills -------------- *)
+Definition KeepsFields (s s' : state) (key : Z) (ks : list Z) : Prop :=
+  exists kcl, dget key (s_cells s) = Some kcl /\
+    forall k, In k ks -> exists ncl, dget k (s_cells s') = Some ncl /\
+      c_imp ncl = c_imp kcl /\ c_univ ncl = c_univ kcl.
+
+Theorem generated_keeps_importance : forall fuel cf ifd ifg (s : state) rs s',
+  fresh_ok s -> s_cache s = [] ->
+  (forall c cl, dget c (s_cells s) = Some cl -> c_orig cl = []) ->
+  fill_phase fuel cf ifd ifg s = Ok (rs, s') ->
+  Forall2 (KeepsFields s s') (fill_keys (s_cells s)) rs.
+Proof.
+  intros fuel cf ifd ifg s rs s' Hf Hc Ho H.
+  destruct (fill_phase_spec fuel cf ifd ifg s rs s' Hf Hc Ho H) as (_ & _ & HR).
+  assert (G : forall keys rs0,
+            (forall k, In k keys -> exists cl, dget k (s_cells s) = Some cl) ->
+            Forall2 (fun key ks => exists chs, Paths s (by_universe (s_cells s)) key chs /\
+                       Forall2 (GenOK s (by_universe (s_cells s)) s' key) ks chs) keys rs0 ->
+            Forall2 (KeepsFields s s') keys rs0).
+  { intros keys rs0 Hk HF. induction HF as [|key ks keys' rs' (chs & _ & HG) _ IH]; constructor.
+    - destruct (Hk key (or_introl eq_refl)) as (kcl & Hkcl). exists kcl. split; [exact Hkcl|].
+      intros k Hin. destruct (Forall2_In_l _ _ _ _ HG Hin) as (ch & _ & G0).
+      destruct G0 as (ncl & lcl & kcl' & r & _ & H2 & _ & H4 & _ & _ & _ & _ & _ & H10 & H11 & _).
+      rewrite Hkcl in H4. inversion H4; subst kcl'. exists ncl. auto.
+    - apply IH. intros k Hin. apply Hk. right. exact Hin. }
+  exact (G _ _ (fill_keys_closed (s_cells s)) HR).
+Qed.
+
+(* the same through the whole chain: the final cell has the importance and the universe written
+   on the card of the level-0 cell it fills *)
+Theorem pipeline_keeps_importance : forall fuel cf ifd ifg num den (s0 s1 s2 : state) rs cells3,
+  fresh_ok s0 -> s_cache s0 = [] -> NoDup (map fst (s_cells s0)) -> all_ref_free s0 ->
+  (forall c cl, dget c (s_cells s0) = Some cl -> c_orig cl = []) ->
+  trcl_phase fuel (map fst (s_cells s0)) s0 = Ok s1 ->
+  fill_phase fuel cf ifd ifg s1 = Ok (rs, s2) ->
+  inline_cells fuel num den (s_cells s2) = Ok cells3 ->
+  Forall2 (KeepsFields s0 (set_cells s2 cells3)) (fill_keys (s_cells s0)) rs.
+Proof.
+  intros fuel cf ifd ifg num den s0 s1 s2 rs cells3 Hf Hc Hnd Hrf Ho Ht Hfill Hinl.
+  destruct (trcl_phase_Moved fuel s0 s1 Hf Hc Hnd Hrf Ht) as (HM & Hf1 & Hc1 & Hsk).
+  assert (Ho1 : forall c cl, dget c (s_cells s1) = Some cl -> c_orig cl = []).
+  { intros c cl1 Hk. destruct (Moved_back _ _ _ _ HM Hk) as (cl & g' & Hcl & ->).
+    cbn [with_geom c_orig]. exact (Ho _ _ Hcl). }
+  pose proof (generated_keeps_importance fuel cf ifd ifg s1 rs s2 Hf1 Hc1 Ho1 Hfill) as HK.
+  rewrite (fill_keys_sk _ _ Hsk) in HK.
+  eapply Forall2_imp; [|exact HK]. intros key ks (kcl1 & Hk1 & Hall).
+  destruct (Moved_back _ _ _ _ HM Hk1) as (kcl & g' & Hkcl & ->).
+  exists kcl. split; [exact Hkcl|]. intros k Hin.
+  destruct (Hall k Hin) as (ncl & Hn & Hi & Hu).
+  destruct (inline_cells_fields _ _ _ _ _ Hinl k ncl Hn) as (g & Hg).
+  exists (with_geom ncl g). split; [exact Hg|]. cbn [with_geom c_imp c_univ] in *. auto.
+Qed.
+
 End Proofs.
